@@ -67,7 +67,7 @@ def run_C01(ctx):
     ref_run(ctx, "corectx", ["corectx", "--n", n_cases(ctx, 300, 10000)],
             "package core: block context from a header, BLOCKHASH lookup through header chains (gaps, probes in any order, lookups counted), transaction context and the message view "
             "handed to Aspects, against go-ethereum v1.12.0's core on the same headers and messages", oracle_prefix="C01")
-    corr_run(ctx, "jumpdest", ["jumpdest", "--n", n_cases(ctx, 40, 1500)],
+    corr_run(ctx, "jumpdest", ["jumpdest", "--n", n_cases(ctx, 40, 500)],
              "Model/JumpDest.v (the byte-level bit-vector analysis) vs the JUMP instruction: codes dense in PUSH opcodes of every width and JUMPDEST bytes, truncated pushes at the end; "
              "every destination 0..len+40 and huge words", nontrivial=lambda c: c.get("byte_is_jumpdest", False))
     corr_run(ctx, "memsize", ["memsize", "--n", n_cases(ctx, 60, 2500)],
